@@ -61,6 +61,11 @@ def get_pathline(
         nonlocal _time_prev, _strain
 
         if _is_inside(point, min_coords, max_coords):
+            # The root finder re-evaluates timestamps it has already seen (e.g. both
+            # ends of the bracket), which must not accumulate the strain again.
+            if time in _seen:
+                _time_prev, _strain = time, _seen[time]
+                return _strain
             dε = _utils.strain_increment(
                 time - _time_prev, get_velocity_gradient(np.nan, point)
             )
@@ -69,6 +74,7 @@ def get_pathline(
             else:  # Subtract strain increment because we are going backwards in time.
                 _strain -= dε
             _time_prev = time
+            _seen[time] = _strain
             return _strain
         # If we are outside the domain, always terminate.
         return 0
@@ -76,6 +82,7 @@ def get_pathline(
     _terminate.terminal = True
     _strain = max_strain
     _time_prev = 0
+    _seen = {0: max_strain}
     _event_flag = False
 
     # Illegal keyword args, check the call below. Remove them and warn about it.
